@@ -32,6 +32,8 @@ def leaves(t):
 
 
 def run(db, chk) -> None:
+    from ..specs.discipline import check_facade_stateless
+    check_facade_stateless(db, chk, "C05.R-facade-stateless", ['get_gpu_kernel_breakdown'])
     from ..specs.discipline import check_stateless
     check_stateless(db, chk, "C05.R-stateless", ['hta.analyzers.breakdown_analysis'])      # the result is a function of the arguments: no state kept between calls, caller's Trace untouched
     chk.floor("C05.R-stateless", 4)
